@@ -14,3 +14,11 @@ package schema
 //@   requires sr != nil
 //@   ensures[len] len(result) == (n < 2 ? 1 : n) && fresh(result)
 //@   ensures[one] n < 2 ==> result[0] == sr
+
+// ---------------------------------------------------------------------------------------------------
+// message.go — messages (C14, C17)
+// ---------------------------------------------------------------------------------------------------
+
+//@ func ToolMessage
+//@   props C17
+//@   ensures[fields] result != nil && fresh(result) && result.Role == Tool && result.Content == content && result.ToolCallID == toolCallID && len(result.ToolCalls) == 0
